@@ -116,12 +116,6 @@ def expanded_facts(facts, defs):
     return frozenset(out)
 
 
-def const_value(e):
-    if isinstance(e, ast.Constant):
-        return e.value
-    raise ValueError(src(e))
-
-
 def literal(e, consts=None):
     """Evaluate a display of constants (E3). consts: name -> expr for module constants."""
     consts = consts or {}
@@ -187,6 +181,44 @@ def ancestors(model, node):
 
 
 def const_value(model, fi, e, depth=0):
+    try:
+        return _const_value(model, fi, e, depth)
+    except (ValueError, TypeError):
+        if depth:
+            raise
+    # not a plain display: let the abstract interpreter compute the value of the expression (dict(... for ...), tuple arithmetic, ...)
+    from .absint import Interp, Obj, TOP, Closure, ClassRef, LazyGen
+    mod = fi.module if fi is not None else None
+    I = Interp(model, mod, {})
+    try:
+        env = {}
+        if fi is not None and getattr(fi, 'cls', None):
+            o = Obj(fi.cls.rsplit('.', 1)[1])
+            o.qual = fi.cls
+            env['self'] = o
+        res = I.explore(lambda: I.materialise(I.ev(e, env)))
+    except Exception:
+        raise ValueError('not a constant display: ' + src(e))
+    if len(res) != 1 or res[0][0][0] != 'return':
+        raise ValueError('not a constant display: ' + src(e))
+    v = res[0][0][1]
+
+    def plain(x, d=0):
+        if d > 6:
+            return False
+        if isinstance(x, (str, bytes, int, float, bool, type(None))):
+            return True
+        if isinstance(x, (list, tuple, set, frozenset)):
+            return all(plain(y, d + 1) for y in x)
+        if isinstance(x, dict):
+            return all(plain(k, d + 1) and plain(y, d + 1) for k, y in x.items())
+        return False
+    if not plain(v):
+        raise ValueError('not a constant display: ' + src(e))
+    return list(v) if type(v).__name__ == 'OneShot' else v
+
+
+def _const_value(model, fi, e, depth=0):
     """Value of a display of constants wherever the repository keeps it: written in place, in a local of `fi`, in `self.<name>` (class-level
     assignment or an assignment in __init__ of the class hierarchy), or in a module-level name. Raises ValueError when it is not such a display."""
     if depth > 6:
@@ -194,7 +226,7 @@ def const_value(model, fi, e, depth=0):
     if isinstance(e, ast.Constant):
         return e.value
     if isinstance(e, (ast.List, ast.Tuple, ast.Set)):
-        vals = [const_value(model, fi, x, depth + 1) for x in e.elts]
+        vals = [_const_value(model, fi, x, depth + 1) for x in e.elts]
         return vals if isinstance(e, ast.List) else (tuple(vals) if isinstance(e, ast.Tuple) else set(vals))
     if isinstance(e, ast.Dict):
         return {const_value(model, fi, k, depth + 1): (src(v) if not isinstance(v, (ast.Constant, ast.List, ast.Tuple, ast.Set, ast.Dict)) else const_value(model, fi, v, depth + 1)) for k, v in zip(e.keys, e.values)}
